@@ -27,14 +27,16 @@ package bsupport
 // ==== configuration: verify => construct (C16) ===================================================================================
 // tcok(c, s): the transform configuration c has been accepted by its VerifyConfig for schema s. Every VerifyConfig ensures it
 // on success; every constructor requires it and must be free of reachable aborts under it.
-//@ pure func tcok(c bconfig.LogTransformConfig, s base.LogSchema) bool
+//@ pure func tcokn(c bconfig.LogTransformConfig, names []string) bool
+//@ pure func tcok(c bconfig.LogTransformConfig, s base.LogSchema) bool := tcokn(c, s.fieldNames)
 //@ extern func (c bconfig.LogTransformConfig) VerifyConfig(schema base.LogSchema) error
 //@   ensures result == nil ==> tcok(c, schema)
 //@ extern func (c bconfig.LogTransformConfig) NewTransform(schema base.LogSchema, parentLogger logger.Logger, customCounterRegistry base.LogCustomCounterRegistry) base.LogTransform
 //@   requires[verified-before-constructed] tcok(c, schema)
 //@   ensures  result != nil
 //@ extern func (c bconfig.LogTransformConfig) GetType() string
-//@ pure func rwcok(c bconfig.LogRewriterConfig, s base.LogSchema, hasNext bool) bool
+//@ pure func rwcokn(c bconfig.LogRewriterConfig, names []string, hasNext bool) bool
+//@ pure func rwcok(c bconfig.LogRewriterConfig, s base.LogSchema, hasNext bool) bool := rwcokn(c, s.fieldNames, hasNext)
 //@ extern func (c bconfig.LogRewriterConfig) VerifyConfig(schema base.LogSchema, hasNext bool) error
 //@   ensures result == nil ==> rwcok(c, schema, hasNext)
 //@ extern func (c bconfig.LogRewriterConfig) NewRewriter(schema base.LogSchema, next base.LogRewriter) base.LogRewriter
